@@ -494,7 +494,7 @@ impl Prop for C19 {
         Some(Duration::from_secs(400))
     }
     fn strategy(&self, _tier: Tier) -> BoxedStrategy<Case> {
-        let lat = prop_oneof![5 => gen::latitude(90.0), 1 => prop_oneof![Just(90.0), Just(-90.0), Just(-0.5), Just(-33.25)]].boxed();
+        let lat = prop_oneof![14 => gen::latitude(64.0), 2 => gen::latitude(90.0), 1 => prop_oneof![Just(90.0), Just(-90.0), Just(-0.5), Just(-33.25)]].boxed();
         let site = (lat, gen::longitude(), gen::elevation(), prop_oneof![3 => -12.0..=12.0f64, 3 => (-12..=12i32).prop_map(|h| h as f64), 1 => prop_oneof![Just(12.0), Just(-12.0), Just(-3.5)]])
             .prop_map(|(lat, lon, elev, gmt)| Site { lat: F(lat), lon: F(lon), elev: F(elev), gmt: F(gmt) });
         let len = prop_oneof![3 => Just(1u32), 2 => Just(2u32), 1 => prop_oneof![Just(365u32), Just(366), Just(400)], 6 => 1u32..=40, 2 => 1u32..=400];
@@ -518,7 +518,7 @@ impl Prop for C19 {
                 let start = start.min(gen::date_hi() - chrono::Duration::days(400));
                 // the default nearest-good-day policy costs up to ~40 ms per day beyond the polar circles: keep
                 // long ranges to moderate latitudes (both dimensions are still covered, not their product)
-                let len = if site.lat.0.abs() > 64.0 { len.min(4) } else if site.lat.0.abs() > 50.0 { len.min(30) } else { len };
+                let len = if site.lat.0.abs() > 64.0 { len.min(2) } else if site.lat.0.abs() > 50.0 { len.min(30) } else { len };
                 Case { method, site, pass_elevation, start, len, out_file, params_file, invalid, preexisting_files, boundary_lon, arg_style, omit_method, omit_end }
             })
             .boxed()
